@@ -45,7 +45,14 @@ pub enum StreamMut {
 
 #[derive(Serialize, Deserialize, Clone, Debug, PartialEq, Eq)]
 pub enum Op {
-    New { v: u8, uninit: bool, place: u8 },
+    New {
+        v: u8,
+        uninit: bool,
+        place: u8,
+        /// construct through the generated `From<Unpacked..>` impl
+        #[serde(default)]
+        via_from: bool,
+    },
     Get { r: u8, stack: bool },
     Set { r: u8, f: u8 },
     Mutate { r: u8, f: u8 },
@@ -510,10 +517,13 @@ impl<'a, R: Rec> Engine<'a, R> {
         self.world.len() - 1
     }
 
-    fn do_new(&mut self, v: u8, uninit: bool, place: u8) {
+    fn do_new(&mut self, v: u8, uninit: bool, place: u8, via_from: bool) {
         let variant = v as usize % self.meta.variants.len();
         self.src.take_made();
-        let rec = if uninit { R::new_uninit(variant, &mut self.src) } else { R::new_full(variant, &mut self.src) };
+        let rec = if uninit { R::new_uninit(variant, &mut self.src, via_from) } else { R::new_full(variant, &mut self.src, via_from) };
+        if via_from {
+            self.probe("constructed_via_from");
+        }
         let made = self.src.take_made();
         let model = self.model_from_made(variant, "new", &made, 0);
         alloc::harness(|| drop(made));
@@ -1384,7 +1394,7 @@ impl<'a, R: Rec> Engine<'a, R> {
         let mut recs: Vec<R> = Vec::with_capacity(n + spare as usize % 3);
         for _ in 0..n {
             self.src.take_made();
-            let rec = R::new_full(v, &mut self.src);
+            let rec = R::new_full(v, &mut self.src, false);
             let made = self.src.take_made();
             let m = self.model_from_made(v, "new", &made, 0);
             alloc::harness(|| {
@@ -1518,7 +1528,7 @@ impl<'a, R: Rec> Engine<'a, R> {
             fold_str(&mut self.out.hash, op.name());
             let mut extra: &[&str] = &[];
             match op {
-                Op::New { v, uninit, place } => self.do_new(*v, *uninit, *place),
+                Op::New { v, uninit, place, via_from } => self.do_new(*v, *uninit, *place, *via_from),
                 Op::Get { r, stack } => self.do_get(*r, *stack),
                 Op::Set { r, f } => self.do_set(*r, *f),
                 Op::Mutate { r, f } => self.do_mutate(*r, *f),
@@ -1604,6 +1614,13 @@ pub fn run_history<R: Rec>(ops: &[Op], cfg: &RunCfg) -> Outcome {
             tainted: false,
             tainted_next: false,
         };
+        // the `RecordN` aliases ("optimized capacity") must be the record types at the published capacity
+        if R::CAP == R::meta().max_size {
+            let (a, b) = (R::alias_layouts(), R::layouts());
+            if a != b {
+                e.v("C07/alias-capacity", format!("the RecordN aliases have (size, align) {:?}, the record types at capacity MAX_SIZE = {} have {:?}", a, R::CAP, b));
+            }
+        }
         e.run(ops);
         // end of life of everything: every instance destroyed exactly once, heap back to baseline
         e.step = ops.len();
@@ -1728,12 +1745,12 @@ pub fn gen_ops(rng: &mut Rng, focus: Focus, faults: bool) -> Vec<Op> {
         }
     }
     let mut ops = Vec::with_capacity(len + 1);
-    ops.push(Op::New { v: rng.below(8) as u8, uninit: rng.chance(1, 3), place: rng.below(3) as u8 });
+    ops.push(Op::New { v: rng.below(8) as u8, uninit: rng.chance(1, 3), place: rng.below(3) as u8, via_from: rng.chance(1, 3) });
     for _ in 0..len {
         let r = rng.below(8) as u8;
         let op = match rng.weighted(&w) {
-            0 => Op::New { v: rng.below(8) as u8, uninit: false, place: rng.below(3) as u8 },
-            1 => Op::New { v: rng.below(8) as u8, uninit: true, place: rng.below(3) as u8 },
+            0 => Op::New { v: rng.below(8) as u8, uninit: false, place: rng.below(3) as u8, via_from: rng.chance(1, 3) },
+            1 => Op::New { v: rng.below(8) as u8, uninit: true, place: rng.below(3) as u8, via_from: rng.chance(1, 3) },
             2 => Op::Get { r, stack: rng.chance(1, 2) },
             3 => Op::Set { r, f: rng.below(16) as u8 },
             4 => Op::Mutate { r, f: rng.below(16) as u8 },
